@@ -1,5 +1,6 @@
 """C08 — schema changes split chunks exactly (DESIGN.md section 8, C08)."""
-import c07
+import os, re
+import c07, verif, codec_common as cc
 
 RULE = ("schema pool A..F (field added / removed / renamed / reordered / nested) + G (type-only change) + Z (no metrics): every Add sequence of "
         "length <= 4 (quick: length 4 sampled 1/5; thorough <= 6 sampled) x N in {1,2,3} through the dynamic and streaming-dynamic collectors "
@@ -8,9 +9,42 @@ RULE = ("schema pool A..F (field added / removed / renamed / reordered / nested)
         "every operation. non-trivial = >= 2 accepted Adds and a rejected Add or flush; distinct by case text")
 
 
+def uncompressed_stage(c, cov):
+    """the collectors that are not schema-aware among the uncompressed ones (model and oracle of C17: Model/UncOk.v)"""
+    okc, outc = c.coq_build(["Extract/ExUnc.v"])
+    if not okc:
+        c.broken.append("Extract/ExUnc.v does not build: %s" % outc[-600:])
+        return
+    okb, _ = c.ocaml_build("unc_model", "c17_run.ml", "c17_run")
+    if not okb:
+        return
+    rc, out = c.harness(["c08u", c.work], timeout=900)
+    if rc != 0:
+        c.broken.append("harness c08u failed rc=%d: %s" % (rc, out[-1500:]))
+        c.violation({"kind": "implementation crashed or hung while being observed", "output": out[-3000:]}, no_input=True)
+        return
+    cases = os.path.join(c.work, "c17.cases")
+    rcm, mout = c.model("c17_run", [cases], timeout=900)
+    mism, viol, summ, other = verif.parse_model_output(mout)
+    if rcm != 0 or "cases" not in summ:
+        c.broken.append("c17_run driver failed: %s" % mout[-800:])
+    cov["uncompressed_not_schema_aware"] = {
+        "rule": "4 uncompressed constructors that are not schema-aware x batch sizes 2,3 x every history up to length 4 over {Add A, Add B "
+                "(fewer fields), Add A+ (one more field), Flush}; model and oracle of C17 (a refused document leaves the batch as it was, an "
+                "accepted one is stored in a batch of its own field count)",
+        "histories": summ.get("cases", 0), "operations": summ.get("ops", 0), "disagreements_checked": len(mism), "oracle_violations": len(viol)}
+    cov["evaluations"] = cov.get("evaluations", 0) + summ.get("ops", 0)
+    for v in viol[:2]:
+        sid = re.search(r"case=(\d+)", v)
+        c.violation({"kind": "oracle c17_step false on the implementation's observation (uncompressed collector, C08 stage)", "case": v[:3000],
+                     "history": cc.first_case_text(cases, sid.group(1)) if sid else None})
+    if mism and not viol:
+        c.broken.append("correspondence model<->uncompressed collectors: %d disagreements, first: %s" % (len(mism), mism[0][:600]))
+
+
 def run(c):
     c07.ORACLE = "c08"
-    c07.run(c, props="Props/C08.v", profile="c08", oracle="c08", rule=RULE)
+    c07.run(c, props="Props/C08.v", profile="c08", oracle="c08", rule=RULE, extra_stage=uncompressed_stage)
 
 
 def replay(c, path):
